@@ -1,6 +1,7 @@
 import pathlib
 import typing as t
 from dataclasses import dataclass
+from dataclasses import replace
 
 from ml_pipeline_engine.dag.graph import DiGraph
 from ml_pipeline_engine.dag.manager import DAGRunConcurrentManager
@@ -40,7 +41,9 @@ class DAG(DAGLike):
     async def run(self, ctx: PipelineContextLike) -> NodeResultT:
         self._start_runtime_validation()
 
-        run_manager = self.run_manager(dag=self, ctx=ctx)
+        # Every run works on its own copy of the graph: the run manager keeps run-time marks
+        # (tried one-of candidates, recurrent additional_data) in the node attributes.
+        run_manager = self.run_manager(dag=replace(self, graph=self.graph.copy()), ctx=ctx)
         return await run_manager.run()
 
     def visualize(  # type: ignore
